@@ -150,9 +150,35 @@ func (fv *FV) resolveType(env *Env, text string) types.Type {
 	case "ref":
 		return types.NewPointer(types.NewStruct(nil, nil))
 	}
+	if (strings.HasPrefix(text, "keyof(") || strings.HasPrefix(text, "valof(")) && strings.HasSuffix(text, ")") {
+		// the key / value type of a set- or map-valued contract expression
+		e, err := parseSpecExpr(text[6 : len(text)-1])
+		if err != nil {
+			fv.sfail("bad type expression %q: %v", text, err)
+		}
+		t := fv.spec(env, e)
+		if st, ok := t.T.(*specType); ok {
+			if strings.HasPrefix(text, "keyof(") && st.key != nil {
+				return st.key
+			}
+			if strings.HasPrefix(text, "valof(") && st.elem != nil {
+				return st.elem
+			}
+		}
+		if mt, ok := underMap(t.T); ok {
+			if strings.HasPrefix(text, "keyof(") {
+				return mt.Key()
+			}
+			return mt.Elem()
+		}
+		fv.sfail("%s: not a set or map", text)
+	}
+	if text == "int64" {
+		return types.Typ[types.Int64]
+	}
 	if strings.HasPrefix(text, "set[") && strings.HasSuffix(text, "]") {
 		el := fv.resolveType(env, text[4:len(text)-1])
-		return &specType{sort: arr(fv.sortOf(el), sBool), elem: el}
+		return &specType{sort: arr(fv.sortOf(el), sBool), elem: types.Typ[types.Bool], key: el}
 	}
 	if strings.HasPrefix(text, "imap[") && strings.HasSuffix(text, "]") { // imap[V]: Int → V ghost map
 		el := fv.resolveType(env, text[5:len(text)-1])
@@ -593,6 +619,14 @@ func (fv *FV) fieldTerm(st *State, v Term, name string) Term {
 		key, _ := fv.fieldComp(named, f)
 		return fv.shorten(Term{S: sel(fv.heapGet(st, key), v.S), Sort: fv.sortOf(f.Type()), T: f.Type()}, f.Name())
 	}
+	if named, ok := types.Unalias(t).(*types.Named); ok {
+		if _, isIface := named.Underlying().(*types.Interface); isIface {
+			if gt := fv.ghostField(named, name); gt != "" {
+				return fv.ghostFieldTerm(st, named, name, gt, v)
+			}
+			fv.sfail("no ghost field %s on interface %s", name, named.Obj().Name())
+		}
+	}
 	if named, sty := structOf(t); sty != nil {
 		f := findField(sty, name)
 		if f == nil {
@@ -640,6 +674,13 @@ func (fv *FV) ghostField(named *types.Named, name string) string {
 func (fv *FV) ghostFieldTerm(st *State, named *types.Named, name, tyText string, v Term) Term {
 	key := "F:" + shortPkg(pkgPathOf(named.Obj())) + "." + named.Obj().Name() + "." + name + "$ghost"
 	env := &Env{fv: fv, st: st, pc: fv.pc, scopePkg: fv.pkg}
+	// the type text may mention the type parameters of the declared type: bind them to the actual type arguments
+	if tps, tas := named.Origin().TypeParams(), named.TypeArgs(); tps != nil && tas != nil {
+		env.tsubst = map[string]types.Type{}
+		for i := 0; i < tps.Len() && i < tas.Len(); i++ {
+			env.tsubst[tps.At(i).Obj().Name()] = tas.At(i)
+		}
+	}
 	t := fv.resolveType(env, tyText)
 	fs := fv.sortOf(t)
 	fv.compSort[key] = arr(sInt, fs)
@@ -1031,6 +1072,47 @@ func (fv *FV) specCall(env *Env, c *SCall) Term {
 			return a[0]
 		}
 		return Term{S: fmt.Sprintf("((_ int2bv 64) %s)", a[0].S), Sort: sBV64, T: types.Typ[types.Uint64]}
+	case "locked":
+		need(1)
+		a := args()
+		fv.compSort["L:held"] = arr(sInt, sBool)
+		return Term{S: sel(fv.heapGet(env.st, "L:held"), a[0].S), Sort: sBool}
+	case "tlen":
+		// tlen(trace): number of recorded calls of the traced callback
+		need(1)
+		id, ok := c.Args[0].(*SIdent)
+		if !ok {
+			fv.sfail("tlen(traceName)")
+		}
+		key := "T:" + id.Name + ":n"
+		fv.compSort[key] = sInt
+		return Term{S: fv.heapGet(env.st, key), Sort: sInt, T: types.Typ[types.Int]}
+	case "targ":
+		// targ(trace, j, i): j-th argument of the i-th recorded call
+		need(3)
+		id, ok := c.Args[0].(*SIdent)
+		if !ok {
+			fv.sfail("targ(traceName, j, i)")
+		}
+		j, ok := c.Args[1].(*SInt)
+		if !ok {
+			fv.sfail("targ: argument position must be a literal")
+		}
+		i := fv.spec(env, c.Args[2])
+		fv.declareTrace(id.Name)
+		pre := "T:" + id.Name + ":" + j.V + ":"
+		for key, srt := range fv.compSort {
+			if strings.HasPrefix(key, pre) {
+				_, es := arraySorts(srt)
+				return Term{S: sel(fv.heapGet(env.st, key), i.S), Sort: es, T: fv.traceTypes[key]}
+			}
+		}
+		fv.sfail("trace %s has no recorded argument %s yet (the traced callback is not called in this function)", id.Name, j.V)
+	case "apply1":
+		// apply1(f, x): result of a pure callback (role `pure`)
+		need(2)
+		a := args()
+		return fv.pureApp(a[0], a[1:])
 	case "oldelem":
 		// oldelem(s, i): element i of slice s in the old heap; s is evaluated in the old state, i in the current one
 		need(2)
@@ -1333,6 +1415,70 @@ func (fv *FV) eqfTerm(f, a, b Term) Term {
 	fv.declare(name, fmt.Sprintf("(declare-fun %s (Int %s %s) Bool)", name, a.Sort, b.Sort))
 	fv.assumptions["equality callbacks are pure and deterministic (uninterpreted function eqf)"] = true
 	return Term{S: app(name, f.S, a.S, b.S), Sort: sBool}
+}
+
+// declareTrace makes the components of a ghost trace known before the traced callback is first called: the
+// argument sorts come from the signature of the struct field that carries the role `trace NAME`.
+func (fv *FV) declareTrace(name string) {
+	if fv.pc == nil {
+		return
+	}
+	for tf, role := range fv.pc.FieldRole {
+		if role != "trace "+name {
+			continue
+		}
+		dot := strings.Index(tf, ".")
+		tname, fname := tf[:dot], tf[dot+1:]
+		for obj := range fv.entry.vars {
+			t := obj.Type()
+			if p, ok := t.Underlying().(*types.Pointer); ok {
+				t = p.Elem()
+			}
+			named, sty := structOf(t)
+			if named == nil || sty == nil || named.Obj().Name() != tname {
+				continue
+			}
+			f := findField(sty, fname)
+			if f == nil {
+				continue
+			}
+			sig, ok := f.Type().Underlying().(*types.Signature)
+			if !ok {
+				continue
+			}
+			for j := 0; j < sig.Params().Len(); j++ {
+				pt := sig.Params().At(j).Type()
+				ps := fv.sortOf(pt)
+				key := fmt.Sprintf("T:%s:%d:%s", name, j, ps)
+				if fv.compSort[key] == "" {
+					fv.compSort[key] = arr(sInt, ps)
+					fv.traceTypes[key] = pt
+				}
+			}
+			fv.compSort["T:"+name+":n"] = sInt
+			return
+		}
+	}
+}
+
+// pureApp: application of a callback with role `pure`: an uninterpreted function of the function value and the
+// arguments (deterministic, no side effects: stated as an assumption).
+func (fv *FV) pureApp(f Term, args []Term) Term {
+	sig, ok := f.T.Underlying().(*types.Signature)
+	if !ok || sig.Results().Len() != 1 {
+		fv.sfail("apply1: %s is not a function with one result", f.S)
+	}
+	rt := sig.Results().At(0).Type()
+	rs := fv.sortOf(rt)
+	var ps, as []string
+	for _, a := range args {
+		ps = append(ps, a.Sort)
+		as = append(as, a.S)
+	}
+	name := "app$" + cleanName(strings.Join(ps, "_")) + "$" + cleanName(rs)
+	fv.declare(name, fmt.Sprintf("(declare-fun %s (Int %s) %s)", name, strings.Join(ps, " "), rs))
+	fv.assumptions["callbacks with role `pure` are deterministic and free of side effects (uninterpreted function of their arguments)"] = true
+	return Term{S: app(name, append([]string{f.S}, as...)...), Sort: rs, T: rt}
 }
 
 func (fv *FV) callsComp(part, sort string) string {
